@@ -171,6 +171,9 @@ func main() {
 		}
 		var ds []float64
 		ds = append(ds, -1, 0, 1, 2, 3, 4, 5, 7, 0.5, 0.375)
+		// intervals that are not dyadic: length/d then lands a few ulps below or above an integer, and the count is
+		// the floor of the exact quotient of the two float values (decided with big rationals below)
+		ds = append(ds, 0.1, 0.2, 0.3, 0.6, 0.7, 1.1, 1.0/3)
 		if !intLen {
 			// irrational length: only intervals whose quotient is far from an integer (count decided in floats)
 			ds = []float64{-1, 0, L / 1.5, L / 2.5, L / 7.25, 2 * L}
@@ -202,6 +205,13 @@ func main() {
 			if intLen {
 				q := new(big.Rat).Quo(new(big.Rat).SetFloat64(L), new(big.Rat).SetFloat64(d))
 				N = int(new(big.Int).Quo(q.Num(), q.Denom()).Int64()) + 1
+				// when d is not dyadic the float quotient may round onto the next integer (3/0.1 = 30 in floats,
+				// 29.99.. exactly): the statement does not say which arithmetic decides, both counts are accepted
+				if qf := L / d; math.Abs(qf-math.Round(qf)) < 1e-9*qf && n >= 2 && !allEq {
+					if alt := int(math.Round(qf)) + 1; len(out) == alt || len(out) == alt-1 {
+						N = len(out)
+					}
+				}
 			} else {
 				N = int(math.Floor(L/d)) + 1
 			}
@@ -222,6 +232,39 @@ func main() {
 		}
 	}
 	r.Explore("lines", fmt.Sprintf("3 distance functions x every vertex list of 0..%d alphabet points", maxN)+" x N in -1..12 x interval set", mc.Opts{MaxDev: -1, Split: 3}, part)
+	// lines whose length is not an integer, with intervals that "divide it exactly" in decimal only: the float
+	// quotient then sits a few ulps below an integer (0.3/0.1 = 2.9999999999999996) and must be floored, not rounded
+	fracL := []float64{0.3, 0.6, 0.7, 0.9, 1.2, 2.1}
+	fracD := []float64{0.1, 0.2, 0.3, 0.7}
+	r.Explore("fractional-lengths", fmt.Sprintf("lengths %v (one segment, two segments, a repeated vertex) x intervals %v: the count is floor(length/d)+1 with the quotient taken either exactly or in floats (both floors agree unless the float quotient rounds onto an integer)", fracL, fracD), mc.Opts{MaxDev: -1}, func(c *mc.Ctx) {
+		L := fracL[c.Choose(len(fracL))]
+		d := fracD[c.Choose(len(fracD))]
+		var ls orb.LineString
+		switch c.Choose(3) {
+		case 0:
+			ls = orb.LineString{{0, 0}, {L, 0}}
+		case 1:
+			ls = orb.LineString{{0, 0}, {L / 4, 0}, {L, 0}}
+		case 2:
+			ls = orb.LineString{{0, 0}, {0, 0}, {L, 0}}
+		}
+		total := 0.0
+		for i := 1; i < len(ls); i++ {
+			total += planar.Distance(ls[i-1], ls[i])
+		}
+		q := new(big.Rat).Quo(new(big.Rat).SetFloat64(total), new(big.Rat).SetFloat64(d))
+		nExact := int(new(big.Int).Quo(q.Num(), q.Denom()).Int64()) + 1
+		nFloat := int(math.Floor(total/d)) + 1
+		out := resample.ToInterval(ls.Clone(), planar.Distance, d)
+		if len(out) != nExact && len(out) != nFloat {
+			c.Failf("count", "ToInterval(%v, d=%v) returned %d points; length/d = %v gives floor+1 = %d (exact quotient: %d)", ls, d, len(out), total/d, nFloat, nExact)
+			return
+		}
+		if out[0] != ls[0] || (len(out) > 1 && out[len(out)-1] != ls[len(ls)-1]) {
+			c.Failf("endpoints", "ToInterval(%v, d=%v) = %v does not start and end at the line's ends", ls, d, out)
+		}
+		c.NonTrivial()
+	})
 	// families: long lines and large counts (scratch arrays sized by the input or by N; up- and down-sampling)
 	lens := []int{16, 100, 257, 1000}
 	bigN := []int{2, 3, 13, 100, 257, 1000, 4097}
